@@ -208,7 +208,7 @@ def monitor(case, obs):
     c = x['c']
     handed = None
     for e in x['ev']:
-      if e[1] == 'complete' and e[3] == 'TimeoutError':
+      if e[1] == 'caller-set' and e[3] == 'TimeoutError' and handed is None:
         handed = e
     if len(x['reqs']) > 1:
       v.append(('request-written-twice', 'call %s was written %d times' % (cid, len(x['reqs']))))
@@ -232,8 +232,10 @@ def monitor(case, obs):
         answered_later_or_never = act.get('act') in ('drop',) or (act.get('act') in ('reply', 'exc', 'dup', 'bogus', 'rerr', 'garbage')
                                                                    and rq['at'] + act.get('delay', 0) > htick)
         closed = [cl for cl in obs['closes'] if str(cl[1]) == rq['port'] and cl[2] == rq['conn']]
-        still_open = not closed or min(cl[0] for cl in closed) > htick + 1
         slow = max([ep.get('send_delay', 0) for ep in case['spec']['endpoints']] + [0])
+        # the discard is queued behind whatever the send loop still has to write (slow writes): it is only owed if
+        # the connection stays open long enough for that
+        still_open = not closed or min(cl[0] for cl in closed) > htick + 1 + 40 * slow
         settled = obs['now'] >= htick + 2 + 40 * slow
         mine = [d for d in x['discards'] if d['conn'] == rq['conn']]
         if answered_later_or_never and still_open and settled and not mine:
@@ -272,6 +274,8 @@ def _labels(cid, x, obs, spec):
       items.append((sq, t, 'ToSerial'))
     elif k == 'to-sendq' and e[3]:
       items.append((sq, t, '(ToSendQ %s)' % C.zlit(e[3])))
+    elif k == 'caller-set' and e[3] == 'TimeoutError' and entered is None:
+      items.append((sq, t, 'OuterTimeout'))     # timed out while waiting for Open(): never dispatched
     elif k == 'notify':
       items.append((sq, t, 'Notify'))
     elif k == 'answered':
@@ -304,7 +308,7 @@ def _labels(cid, x, obs, spec):
       labels.append('(Tick %s)' % C.zlit(t))
       cur = t
     labels.append(l)
-  handed = any(e[1] == 'complete' and e[3] == 'TimeoutError' for e in x['ev'])
+  handed = any(e[1] == 'caller-set' and e[3] == 'TimeoutError' for e in x['ev'])
   fire_tick = max([e[0] for e in x['ev'] if e[1] == 'timer-fire' and e[3]] + [-1])
   slow = max([ep.get('send_delay', 0) for ep in spec['endpoints']] + [0])
   settled = fire_tick >= 0 and obs['now'] >= fire_tick + 2 + 40 * slow
@@ -316,7 +320,7 @@ def to_coq(case, obs):
   terms = []
   for cid in sorted(info):
     x = info[cid]
-    if x['c'].get('issue_error') or not any(e[1] == 'tsink' for e in x['ev']):
+    if x['c'].get('issue_error') or not any(e[1] in ('tsink', 'caller-set') for e in x['ev']):
       continue
     if any(e[1] == 'tsink' and e[3] is None for e in x['ev']):
       continue   # no deadline on this call
@@ -344,7 +348,7 @@ def stats(cases, obs):
     info, _p, _s = _per_call(c, o)
     for cid, x in info.items():
       n += 1
-      if any(e[1] == 'complete' and e[3] == 'TimeoutError' for e in x['ev']):
+      if any(e[1] == 'caller-set' and e[3] == 'TimeoutError' for e in x['ev']):
         t += 1
         if x['reqs']:
           w += 1
